@@ -4,5 +4,5 @@ CONSTANTS
   CfgSet <- AllCfgs
 VIEW NoSched
 INVARIANTS InBounds Disjoint Tiling RowOrder EachOnce HeldDistinct
-PROPERTY Terminates
+PROPERTIES Terminates RefinesOrderedRows
 CHECK_DEADLOCK FALSE
